@@ -136,11 +136,34 @@ def _nested_outer(qk1, qk2, d1, d2, vi, vj, pl, op1, op2):
     return ('q', qk1, 'i', d1, binop(op1, binop(op2, vi, pl), ('q', qk2, 'j', d2, vj)))
 
 
+# Aggregates and membership over literal ranges / sets: every bound combination incl. exclusive bounds that hit 0,
+# one-point and empty ranges - where constant folding has to get inclusive/exclusive arithmetic right.
+AGG_FUNCS = ['len', 'sum', 'prod', 'max', 'min']
+RANGE_LO = [('un', '-', L(3)), ('un', '-', L(1)), L(0), L(1), L(2)]
+RANGE_HI = [('un', '-', L(1)), L(0), L(1), L(3), L(5)]
+EXCL = [(False, False), (True, False), (False, True), (True, True)]
+IN_VALUES = [('un', '-', L(1)), L(0), L(1), L(3), L(5), F('0.5'), X]
+SET_ELEMS = [L(0), L(1), L(2), ('un', '-', L(1)), L(5)]
+
+
+def _sets():
+    out = []
+    for n in (1, 2, 3):
+        for combo in itertools.combinations(SET_ELEMS, n):
+            out.append(('set', tuple(combo)))
+    return out
+
+
+LIT_SETS = _sets()
+
+
 class Family:
     """A lazily indexed family of terms: len() and __getitem__ without materialising products."""
 
     def __init__(self, name, parts, build):
         self.name = name
+        # how much denser than the tier's stride this family is sliced: the law tables are small and carry most rules
+        self.density = 'full' if name.startswith(('agg_', 'in_')) else 10 if name.startswith(('pow_', 'lin_', 'quant_lit')) else 1
         self.parts = parts
         self.build = build
         self.sizes = [len(p) for p in parts]
@@ -194,6 +217,14 @@ def families():
         Family('lin_cmp_both', [RELS, LIN_OPS, LIN_VARS, LIN_VARS, LIN_CONSTS], lambda r, o, v, w, c: binop(r, binop(o, v, c), binop(o, w, c))),
         Family('cmp_pair', [CONN + ['=', '!='], CMP_ALL, CMP_ALL], lambda op, a, b: binop(op, a, b)),
         Family('cmp_pair_not', [['and', 'or'], CMP_ALL, CMP_ALL], lambda op, a, b: binop(op, a, ('un', 'not', b))),
+        Family('agg_range', [AGG_FUNCS, RANGE_LO, RANGE_HI, EXCL], lambda f, lo, hi, ex: ('call', f, ('range', lo, hi, ex[0], ex[1]))),
+        Family('agg_range_var', [AGG_FUNCS, [X, binop('+', X, L(1))], RANGE_HI, EXCL], lambda f, lo, hi, ex: ('call', f, ('range', lo, hi, ex[0], ex[1]))),
+        Family('agg_set', [AGG_FUNCS + ['gcd'], LIT_SETS], lambda f, st: ('call', f, st)),
+        Family('agg_set_var', [AGG_FUNCS, LIT_SETS], lambda f, st: ('call', f, ('set', st[1] + (X,)))),
+        Family('in_range', [IN_VALUES, RANGE_LO, RANGE_HI, EXCL], lambda v, lo, hi, ex: binop('in', v, ('range', lo, hi, ex[0], ex[1]))),
+        Family('in_set', [IN_VALUES, LIT_SETS], lambda v, st: binop('in', v, st)),
+        Family('quant_lit_range', [['forall', 'exists'], RANGE_LO, RANGE_HI, EXCL, VAR_BODIES],
+               lambda qk, lo, hi, ex, b: ('q', qk, 'i', ('range', lo, hi, ex[0], ex[1]), b)),
         Family('nested_quant', [['forall', 'exists'], ['forall', 'exists'], NEST_DOM1, NEST_DOM2, VARI_BODIES, VARJ_BODIES, PLAIN_BODIES,
                                 ['and', 'or', 'implies'], ['and', 'or', 'implies'], [0, 1, 2, 3]], _nested),
         Family('nested_quant_outer', [['forall', 'exists'], ['forall', 'exists'], NEST_DOM1, NEST_DOM2, VARI_BODIES, VARJ_BODIES, PLAIN_BODIES,
@@ -216,4 +247,5 @@ def nth(fams, idx):
 
 def boolean_family_names():
     return {'cmp_depth1', 'bool_depth2', 'bool_not_depth2', 'quant', 'quant_not', 'quant_not2', 'quant_not3', 'bool_not2', 'quant_body_not', 'quant_conn', 'quant_conn_r', 'bool_cmp',
-            'lin_cmp', 'lin_cmp_r', 'lin_cmp_both', 'cmp_pair', 'cmp_pair_not', 'nested_quant', 'nested_quant_outer'}  # fmt: skip
+            'lin_cmp', 'lin_cmp_r', 'lin_cmp_both', 'cmp_pair', 'cmp_pair_not', 'nested_quant', 'nested_quant_outer',
+            'in_range', 'in_set', 'quant_lit_range'}  # fmt: skip
